@@ -146,7 +146,11 @@ impl Accept {
                     }
                     _ => {
                         let token = usize::from(token);
-                        self.accept(sockets, token);
+                        // A listener event can sit in the same batch behind the waker event that
+                        // paused the server; the listener is registered again on resume.
+                        if !self.paused {
+                            self.accept(sockets, token);
+                        }
                     }
                 }
             }
